@@ -24,8 +24,8 @@ type gen struct {
 
 func newGen(rng *common.Rng) *gen { return &gen{rng: rng, feat: map[string]bool{}} }
 
-func (g *gen) w(s string)   { g.out = append(g.out, s...) }
-func (g *gen) wb(b []byte)  { g.out = append(g.out, b...) }
+func (g *gen) w(s string)    { g.out = append(g.out, s...) }
+func (g *gen) wb(b []byte)   { g.out = append(g.out, b...) }
 func (g *gen) f(name string) { g.feat[name] = true }
 
 // kw writes a keyword with random letter case.
@@ -288,7 +288,13 @@ func (g *gen) flag() []byte {
 		}
 		g.wb(f)
 		return f
-	case x < 60: // flag-extension
+	case x < 58: // a KEYWORD (no backslash) that collides case-insensitively with a system flag name: an ordinary atom
+		names := []string{"recent", "Recent", "RECENT", "rEcEnT", "seen", "SEEN", "Seen", "deleted", "Deleted", "answered", "FLAGGED", "draft", "Draft"}
+		f := []byte(names[g.rng.Pick(len(names))])
+		g.wb(f)
+		g.f("keyword-like-system-flag")
+		return f
+	case x < 64: // flag-extension
 		for {
 			a := g.atomString(false)
 			if !strings.EqualFold(string(a), "recent") {
